@@ -134,6 +134,7 @@ ob("c06::min_max", "C06", timeout=300, functions=["TwoFloat::min", "TwoFloat::ma
 ob("c06::sign_queries", "C06", timeout=300, functions=["TwoFloat::abs", "TwoFloat::is_sign_positive", "TwoFloat::is_sign_negative", "TwoFloat::signum", "TwoFloat::copysign"])
 ob("c06::signum_invalid", "C06", timeout=240, functions=["TwoFloat::signum"])
 ob("c06::lemma_sign", "C06", cls="lemma", timeout=300)
+ob("c06::lemma_mono_neighbours", "C06", cls="lemma", timeout=300)
 for _c in ("p0", "p1", "p2", "p3", "n0", "n1", "n2", "n3"):
     ob("c06::lemma_bracket_" + _c, "C06", tier="thorough", cls="lemma", timeout=5400)
 
